@@ -416,15 +416,23 @@ struct StringStream {
         const SizeT     new_length = (Length() + len);
 
         if (Capacity() < new_length) {
-            expand(new_length);
+            // 'str' may point into this stream's own storage; release the old block after copying from it.
+            Char_T *old_storage = grow(new_length);
+            Memory::Copy((Storage() + Length()), str, (len * size));
+            Memory::Deallocate(old_storage);
+        } else {
+            Memory::Copy((Storage() + Length()), str, (len * size));
         }
-
-        Memory::Copy((Storage() + Length()), str, (len * size));
 
         setLength(new_length);
     }
 
     void expand(const SizeT new_capacity) {
+        Memory::Deallocate(grow(new_capacity));
+    }
+
+    // Moves the content to a larger block and returns the old one, which the caller has to release.
+    Char_T *grow(const SizeT new_capacity) {
         constexpr SizeT size = sizeof(Char_T);
         Char_T         *str  = Storage();
 
@@ -436,7 +444,7 @@ struct StringStream {
         allocate(new_capacity * SizeT{4});
 
         Memory::Copy(Storage(), str, (Length() * size));
-        Memory::Deallocate(str);
+        return str;
     }
 
     void allocate(SizeT size) {
